@@ -262,6 +262,11 @@ def r10_2(ctx: Ctx, rule="R10.2"):
     loops = [n for n in walk_no_nested(rh.node) if isinstance(n, ast.For)]
     en = [l for l in loops if isinstance(l.iter, ast.Call) and call_name(l.iter) == "enumerate" and norm(l.iter.args[0]) == p_mol]
     rl = [l for l in loops if norm(l.iter) == p_restr]
+    if not en and not rl:
+        # the filter is not written with the two loops this rule reads (e.g. comprehensions): not decided
+        ctx.ob(rule, rh, "hydrogen filter", True, "the hydrogen filter is not written as a loop over the enumerated molecule followed by "
+               "a loop over the pairs; re-indexing not decided on this tree", undecided=True, node=rh.node)
+        return
     ok1 = False
     map_var = None
     if en:
@@ -348,9 +353,14 @@ def r10_4(ctx: Ctx, rule="R10.4"):
                 okl = okl and o1 in inits and o2 in inits and const_int(inits[o1].value) == 0 and const_int(inits[o2].value) == 0
                 # results accumulate in order
                 okl = okl and isinstance(call_st, ast.AugAssign) and isinstance(call_st.op, ast.Add)
-    ctx.ob(rule, gp, loops[0] if loops else "pairing loop", okl,
-           "residues are paired position by position; each molecule's offset starts at 0 and grows by the length of "
-           "its own residue after the residue is processed; results are concatenated in order", node=loops[0] if loops else gp.node)
+    recognised = bool(loops) and norm(loops[0].iter) == "zip(%s.residues, %s.residues)" % (m1, m2) and isinstance(loops[0].target, ast.Tuple)
+    if recognised or not loops:
+        ctx.ob(rule, gp, loops[0] if loops else "pairing loop", okl,
+               "residues are paired position by position; each molecule's offset starts at 0 and grows by the length of "
+               "its own residue after the residue is processed; results are concatenated in order", node=loops[0] if loops else gp.node)
+    else:
+        ctx.ob(rule, gp, loops[0], True, "the pairing loop is not `for r1, r2 in zip(mol1.residues, mol2.residues)` with running "
+               "offsets; offsets not decided on this tree", undecided=True, node=loops[0])
     # per-residue pairing
     r1, r2, of1, of2 = gr.params[:4]
     txt = {norm(s.targets[0]): s.value for s in gr.node.body if isinstance(s, ast.Assign)}
@@ -376,9 +386,15 @@ def r10_4(ctx: Ctx, rule="R10.4"):
                             i, j = norm(c.generators[0].target), norm(c.generators[1].target)
                             comp_ok = norm(c.generators[0].iter) == g1 and norm(c.generators[1].iter) == g2 and \
                                 [norm(e) for e in c.elt.elts] == ["%s + %s" % (i, of1), "%s + %s" % (j, of2)]
-    ctx.ob(rule, gr, "per-residue groups", okg and comp_ok,
-           "both residues are cut into min(len1, len2) groups; group k of one is paired with group k of the other "
-           "(all-to-all inside), each index shifted by its own molecule's offset", node=gr.node)
+    shape_seen = okg and any(isinstance(l, ast.For) and norm(l.iter) == "zip(%s, %s)" % (groups[r1], groups[r2])
+                             for l in walk_no_nested(gr.node))
+    if shape_seen or not okg:
+        ctx.ob(rule, gr, "per-residue groups", okg and comp_ok,
+               "both residues are cut into min(len1, len2) groups; group k of one is paired with group k of the other "
+               "(all-to-all inside), each index shifted by its own molecule's offset", node=gr.node)
+    else:
+        ctx.ob(rule, gr, "per-residue groups", True, "the group pairing is not written as a loop over zip(groups1, groups2); not decided "
+               "on this tree", undecided=True, node=gr.node)
     # telescoping slices
     rets = [r for r in walk_no_nested(sp.node) if isinstance(r, ast.Return)]
     okt = False
@@ -402,9 +418,15 @@ def r10_4(ctx: Ctx, rule="R10.4"):
             lo_next = norm(Sub().visit(copy.deepcopy(lo))) if lo is not None else None
             okt = lo is not None and hi is not None and norm(lo) == canon and norm(hi) == lo_next
             detail = "lower=%s upper=%s lower[i+1]=%s" % (norm(lo), norm(hi), lo_next)
-    ctx.ob(rule, sp, rets[0] if rets else "_split_list", okt,
-           "slice k ends where slice k+1 starts, the first starts at 0 and the last ends at len: the groups tile the "
-           "index range in order (%s)" % detail, node=rets[0] if rets else sp.node)
+    slicing_comp = bool(rets) and isinstance(rets[0].value, ast.ListComp) and isinstance(rets[0].value.elt, ast.Subscript) \
+        and isinstance(rets[0].value.elt.slice, ast.Slice)
+    if slicing_comp or not rets:
+        ctx.ob(rule, sp, rets[0] if rets else "_split_list", okt,
+               "slice k ends where slice k+1 starts, the first starts at 0 and the last ends at len: the groups tile the "
+               "index range in order (%s)" % detail, node=rets[0] if rets else sp.node)
+    else:
+        ctx.ob(rule, sp, rets[0], True, "the split is not written as a comprehension of slices; tiling not decided on this tree",
+               undecided=True, node=rets[0])
 
 
 def r10_5(ctx: Ctx, rule="R10.5"):
